@@ -771,6 +771,28 @@ fn walk(quick: bool, no_pty: bool, capture_at: Option<u64>) -> Result<(Value, Op
     parts.push(json!({"phase":"extended-values+COLORTERM","visits":ext_visits,
         "values": (0..6).map(|v| json!({VAR_NAMES[v]: extended_values(v)})).collect::<Vec<_>>() }));
 
+    // phase C2: variables the statement does not mention (vendor CI markers, other colour conventions, near-miss
+    // spellings) must not move the decision: each one set on top of eight base configurations, both stdio settings
+    let mut foreign_visits = 0u64;
+    const FOREIGN: [(&str, &str); 12] = [
+        ("TF_BUILD", "True"), ("TEAMCITY_VERSION", "2024.1"), ("JENKINS_URL", "http://x/"), ("GITHUB_ACTIONS", "true"), ("BUILD_NUMBER", "7"), ("FORCE_COLOR", "1"),
+        ("COLORFGBG", "15;0"), ("TERM_PROGRAM", "vscode"), ("NOCOLOR", "1"), ("CLICOLORFORCE", "1"), ("WT_SESSION", "1"), ("ANSICON", "1"),
+    ];
+    for &sv in &stdio_values {
+        for (term, clicolor, ci) in [(None, None, None), (Some("dumb"), None, None), (Some("xterm-256color"), None, None), (None, Some("1"), None), (Some("dumb"), Some("0"), None), (None, None, Some("")), (Some("dumb"), None, Some("1")), (Some("xterm"), Some("0"), Some("1"))] {
+            let base = Live { global: ColorChoice::Auto, vars: [None, None, clicolor.map(|s: &str| s.to_string()), term.map(|s: &str| s.to_string()), ci.map(|s: &str| s.to_string()), None], stdio: sv };
+            rig.goto(&base)?;
+            for (k, v) in FOREIGN {
+                std::env::set_var(k, v);
+                let here = rig.live.clone();
+                visit(&mut rig, &here, &mut col, "foreign-variables");
+                std::env::remove_var(k);
+                foreign_visits += 1;
+            }
+        }
+    }
+    parts.push(json!({"phase":"foreign-variables","visits":foreign_visits,"variables":FOREIGN.iter().map(|(k, v)| format!("{k}={v}")).collect::<Vec<_>>()}));
+
     // phase D: the clap flag
     let base = Live { global: ColorChoice::Auto, vars: [None, None, None, Some("xterm-256color".into()), None, None], stdio: stdio_values[0] };
     rig.goto(&base)?;
